@@ -330,7 +330,7 @@ def run_prio(ctx: Ctx) -> RuleResult:
     res.ob('%s %s' % (gc.loc(), gc.qual), 'EBNF helper rules get fresh options without a priority', ok)
     if not ok:
         res.finding(gc, ro[0] if ro else gc.node, 'the helper rules of +/*/~ expansion inherit the user rule\'s options (and so its priority, '
-                    'once per repetition): the total priority is no longer the sum over the rules applied', construct='prio:helper-options', props=['C03', 'C05'])
+                    'once per repetition): the total priority is no longer the sum over the rules applied', construct='prio:helper-options', props=['C03', 'C05', 'C09'])
     # aggregator vs ordering
     fsv = repo.cls('lark.parsers.earley_forest:ForestSumVisitor')
     so = fsv.methods['visit_symbol_node_out']
